@@ -229,7 +229,7 @@ def ed_to_x(ctx, n):
     # VerifyingKey::to_montgomery follows the birational map for every key, also the small-order ones
     for t in ref.TORSION:
         Ab = ref.ed_compress(t)
-        ctx.add('sig.vk_ctor', Ab.hex(), expect=['ok', Ab.hex(), 'T', to32(ref.ed_to_mont(t)).hex()], cls='ed2x:small-order-key')
+        ctx.add('sig.vk_ctor', Ab.hex(), expect=['ok', Ab.hex(), 'T', to32(ref.ed_to_mont(t)).hex(), 'T', Ab.hex(), Ab.hex(), Ab.hex(), Ab.hex()], cls='ed2x:small-order-key')
     for _ in range(n):
         p = vals.Pt(rng.randrange(1, L), rng.randrange(8))
         ctx.add('sig.vk_ctor', p.encoding().hex(), expect=['ok', p.encoding().hex(), 'F', to32(ref.ed_to_mont(p.affine())).hex()], cls='ed2x')
